@@ -488,14 +488,25 @@ def judge(ctx, fam, subject, keybase, rawfn, fn, case, accepted, stored, exc, re
     if accepted:
         w['stored'] = stored
     where = f'{fam} {subject} via {case["entry"]}'
+    same = accepted and _same(stored, value)
     if v == OUT and accepted:
-        if only_member_newline(rawfn, fn, value, aslist):
-            ctx.violation(f'C16/trailing-newline-accepted-{fam}',
-                          f'{where}: "<member>\\n" is outside the documented whole-string format but was accepted '
-                          f'and stored ($ also matches before a final newline)', w)
-        else:
+        if same:
+            if only_member_newline(rawfn, fn, value, aslist):
+                d = ctx.info.setdefault('newline_accepted', {})
+                k = f'{fam}:{subject}:{case["entry"]}'
+                d[k] = d.get(k, 0) + 1
+                ctx.violation(f'C16/trailing-newline-accepted-{fam}',
+                              f'{where}: "<member>\\n" is outside the documented whole-string format but was accepted '
+                              f'and stored ($ also matches before a final newline)', w)
+            else:
+                ctx.violation(f'C16/{keybase}-accepts-out-of-domain',
+                              f'{where}: a value outside the documented domain was accepted and stored', w)
+        elif isinstance(stored, (str, list)) and not str(stored).startswith(MISSING) and \
+                verdict_of(fn, stored, aslist) == OUT:
             ctx.violation(f'C16/{keybase}-accepts-out-of-domain',
-                          f'{where}: a value outside the documented domain was accepted', w)
+                          f'{where}: no error was raised and a (different) value outside the documented domain was stored', w)
+        else:
+            ctx.count('agree:out-not-stored')       # silently dropped or normalised into the domain: nothing bad stored
     elif v == IN and not accepted:
         ctx.violation(f'C16/{keybase}-rejects-in-domain',
                       f'{where}: a value inside the documented domain was rejected', w)
@@ -503,21 +514,21 @@ def judge(ctx, fam, subject, keybase, rawfn, fn, case, accepted, stored, exc, re
         ctx.count('agree:accepted-in')
     elif v == OUT:
         ctx.count('agree:rejected-out')
-    if accepted:
+    if accepted and v == IN:
         ctx.count('clause:stored-equals-input')
-        if not _same(stored, value):
-            ctx.violation(f'C16/{keybase}-stored-differs', f'{where}: the stored value differs from the accepted input', w)
-        if reenc is not None:
-            ctx.count('clause:reencode-accepted')
-            if reenc[0] == 'rejected':
-                if not (v == OUT):       # an OUT value that slipped in is already reported above
-                    ctx.violation(f'C16/{keybase}-reencode-rejected',
-                                  f'{where}: an accepted value is rejected when encoded and decoded again',
-                                  dict(w, reencode=reenc[1]))
-            elif not _same(reenc[1], value):
-                ctx.violation(f'C16/{keybase}-reencode-differs',
-                              f'{where}: encode/decode of an accepted value gives a different value',
-                              dict(w, reencode=reenc[1]))
+        if not same:
+            ctx.violation(f'C16/{keybase}-stored-differs',
+                          f'{where}: no error was raised but the stored value differs from the in-domain input', w)
+    if accepted and v != OUT and reenc is not None:
+        ctx.count('clause:reencode-accepted')
+        if reenc[0] == 'rejected':
+            ctx.violation(f'C16/{keybase}-reencode-rejected',
+                          f'{where}: an accepted value is rejected when encoded and decoded again',
+                          dict(w, reencode=reenc[1]))
+        elif v == IN and same and not _same(reenc[1], value):
+            ctx.violation(f'C16/{keybase}-reencode-differs',
+                          f'{where}: encode/decode of an accepted value gives a different value',
+                          dict(w, reencode=reenc[1]))
     return v
 
 
@@ -561,9 +572,6 @@ def drive_label(env, r, entry, field, value, elem_kind):
                                    'before': before, 'after': dict(base.__dict__)})
             raise
         stored = getattr(lab, field)
-        if lab is base or base.__dict__ != before:
-            env.ctx.violation('C16/labels-update-in-place', 'Labels.update must return a new object',
-                              {'family': 'labels', 'field': field, 'entry': entry, 'value': value})
     elif entry == 'from_json':
         lab = L.from_json(json.dumps(kw))
         stored = getattr(lab, field)
@@ -803,10 +811,10 @@ def eval_tags(env, r, case):
 
 def tag_candidates(r, quick):
     extra, lo, hi = R.TAG
-    c = length_specials(extra, lo, hi)
-    c += ['abc', 'a', 'A-b_9', '-', '_', 'abc\n', 'a\n', '\nabc', 'a\nb', 'abc\n\n', 'abc\r\n', 'abc ', ' abc', 'a b',
+    c = ['abc', 'a', 'A-b_9', '-', '_', 'abc\n', 'a\n', '\nabc', 'a\nb', 'abc\n\n', 'abc\r\n', 'abc ', ' abc', 'a b',
           'a.b', 'a/b', 'a:b', 'a+b', '\u00e9t\u00e9', '\u4e2d', 'a' * 254, 'a' * 255, 'a' * 256, 'a' * 255 + '\n',
           'a' * 254 + '\n', '']
+    c += length_specials(extra, lo, hi)
     members = [m_word(r, extra, lo, hi) for _ in range(4 if quick else 10)]
     c += members
     for m in members[:2 if quick else 6]:
@@ -816,7 +824,7 @@ def tag_candidates(r, quick):
         if s not in seen:
             seen.add(s)
             out.append(s)
-    out += [5, None, 1.5, b'ab', ['nested'], True]     # "it is a string": non-strings are documented as rejected
+    out += [5, None, 1.5, b'ab', {'a': 1}, True]     # "it is a string": non-strings are documented as rejected
     return out
 
 
@@ -834,7 +842,7 @@ def tags_round(env, r, quick):
             forms += [[s, mem[0], mem[1]], [mem[0], s, mem[1]], [mem[0], mem[1], s]]
         for fi, value in enumerate(forms):
             for ei, entry in enumerate(TAG_ENTRIES):
-                if entry == 'from_json' and not all(isinstance(x, (str, int, float, list, bool, type(None)))
+                if entry == 'from_json' and not all(isinstance(x, (str, int, float, dict, bool, type(None)))
                                                     for x in value):
                     continue
                 if entry == 'add_node_kwargs' and (ci + fi) % 5 != 0:
@@ -854,10 +862,10 @@ def tags_round(env, r, quick):
 # ======================================================================================== names
 def name_candidates(r, kind, quick):
     extra, lo, hi = R.NAMES[kind]
-    c = length_specials(extra, lo, hi)
-    c += ['ab', 'a', 'ab\n', 'a\n', 'node-1', 'Node1', 'n.1', 'a b', 'a/b', 'a:b', 'a+b', 'a_b', 'ab\n\n', '\nab',
+    c = ['ab', 'a', 'ab\n', 'a\n', 'node-1', 'Node1', 'n.1', 'a b', 'a/b', 'a:b', 'a+b', 'a_b', 'ab\n\n', '\nab',
           'a\nb', 'ab\r\n', 'ab ', ' ab', 'HundredGigE0/0/0/26', 'nic1-p1', '\u00e9t\u00e9', '\u4e2d\u6587',
           'a' * (hi - 1) + '\n', 'a' * hi + '\n', 'x' * hi, 'x' * (hi + 1)]
+    c += length_specials(extra, lo, hi)
     members = [m_word(r, extra, lo, hi) for _ in range(3 if quick else 8)]
     c += members
     for m in members[:2 if quick else 5]:
